@@ -63,7 +63,7 @@ def run(tier: str) -> int:
     b = families.c01_bounds(tier, lean=True)
     return gc.run_model_check(
         C16(), specs(tier), tier, "exploration",
-        bounds=[{"top": [{"n": n, "modifiers": list(m), "trivia": list(t)} for n, m, t in b["top"]], "contexts": [{"hole_size": h, "trivia": list(t)} for h, t in b["ctx"]],
+        bounds=[{"top": [{"n": n, "modifiers": list(m), "trivia": list(t)} for n, m, t in b["top"]], "contexts": [{"hole_size": h, "trivia": list(t)} for h, t in b["ctx"]], "stack_contexts_also_under": b.get("ctx_stack_under", []),
                  "start_positions": "every k in 0..len(text)", "max_inputs_per_rule": 45 if tier == "quick" else 130}],
         rule=families.c01_rule_text() + families.SKIP_RULE_TEXT + "; terminals extended by ASCII_HEX_DIGIT, (!\"b\" ~ ANY)* and a squashable choice (regex-backed after optimisation); no member uses SOI. "
              "For every text and every k in 0..len: observation of parse(rule, text, start_pos=k) must equal the observation of parse(rule, text[k:]) with every position (and furthest_pos, except the -1 sentinel) shifted by k. "
